@@ -209,6 +209,9 @@ theorem oinv_step {st : FES.State × Handles} {fz fb : List Ev} (g : OInv st.1 f
           · simp at hf; subst hf; exact Nat.le_refl _
         · exact ((List.filter_sublist (l := s.pend)).map _).nodup g.pnd
         · intro p hp; exact g.idsP p (List.mem_filter.mp hp).1
+  | peek =>
+    simp only [sstep, ghostFetchZ, ghostFetchB, List.append_nil]
+    exact g
 
 theorem oinv_ordFrom (ops : List Op) : ∀ (st : FES.State × Handles) (h : List Ev × List Ev),
     OInv st.1 h.1 h.2 → OInv (ordFrom st h ops).1.1 (ordFrom st h ops).2.1 (ordFrom st h ops).2.2 := by
